@@ -45,6 +45,31 @@ KEY_ATTR_EQ = "C19:attribute-eq-compares-prefix-with-name"
 # running operations on the implementation
 # ---------------------------------------------------------------------------
 
+class Stuck(Exception):
+    """an implementation call that does not return (e.g. a walk up parent links that loop)"""
+
+
+class deadline(object):
+    """bounds one implementation call; a call that does not return becomes an exception"""
+
+    def __init__(self, seconds=5.0):
+        self.seconds = seconds
+
+    def _fire(self, signum, frame):
+        raise Stuck("call did not return within %ss" % self.seconds)
+
+    def __enter__(self):
+        import signal
+        self.old = signal.signal(signal.SIGALRM, self._fire)
+        signal.setitimer(signal.ITIMER_REAL, self.seconds)
+
+    def __exit__(self, *exc):
+        import signal
+        signal.setitimer(signal.ITIMER_REAL, 0)
+        signal.signal(signal.SIGALRM, self.old)
+        return False
+
+
 class Reg(object):
     """The Element objects the harness holds, by allocation number."""
 
@@ -283,30 +308,43 @@ def valid_ids(reg, op):
 
 
 def run_history(setup, steps):
-    """-> (observations, executed steps); a step that would tie a cycle (plain()
-    would not terminate) ends the history."""
+    """-> (observations, executed steps, picture after the setup); a step that would
+    tie a cycle (plain() would not terminate) ends the history."""
     reg = Reg()
-    for op in setup:
-        assert valid_ids(reg, op) and not makes_cycle(reg, op), op
-        apply_op(reg, op)
+    try:
+        with deadline(20.0):
+            for op in setup:
+                assert valid_ids(reg, op) and not makes_cycle(reg, op), op
+                apply_op(reg, op)
+            base = (dump(reg), plains(reg))
+    except Stuck:
+        return [], [], ([], [])
     obs, done = [], []
     for op in steps:
         if not valid_ids(reg, op) or makes_cycle(reg, op):
             break
         if op[0] in ("clone", "prune") and expanded_size(reg) > 120:
             break
-        res = apply_op(reg, op)
-        if expanded_size(reg) > 300:
+        try:
+            with deadline():
+                res = apply_op(reg, op)
+                if expanded_size(reg) > 300:
+                    break
+                ob = (res, dump(reg), plains(reg))
+        except Stuck:
+            obs.append((("RErr",), [(999997, [], None, "!stuck", None, [], [], None)], []))
+            done.append(op)
             break
-        obs.append((res, dump(reg), plains(reg)))
+        obs.append(ob)
         done.append(op)
-    return obs, done
+    return obs, done, base
 
 
-def deltas(obs):
-    """per step: (result, count, changed cells, parentless ids, changed plain texts)"""
+def deltas(obs, base):
+    """per step: (result, count, changed cells, parentless ids, changed plain texts),
+    relative to the picture before"""
     out = []
-    prev, prevp = [], {}
+    prev, prevp = list(base[0]), dict(base[1])
     for res, cells, pl in obs:
         d = [(i, c) for i, c in enumerate(cells) if i >= len(prev) or prev[i] != c]
         dp = [(i, s) for i, s in pl if prevp.get(i) != s]
@@ -428,11 +466,23 @@ def c_obs(ob):
     return "(mkO %s %d%%N %s %s %s)" % (c_res(res), count, d, c_ids(roots), p)
 
 
-def c_case(quirk, setup, steps, obs):
-    su = "[" + ";".join(c_op(o) for o in setup) + "]" if setup else "[]"
-    st = ("[" + ";".join("(%s,%s)" % (c_op(o), c_obs(ob)) for o, ob in zip(steps, deltas(obs))) + "]"
+def c_setup(setup):
+    return "[" + ";".join(c_op(o) for o in setup) + "]" if setup else "[]"
+
+
+def c_base(base):
+    cells, pl = base
+    d = "[" + ";".join("(%d%%N,%s)" % (i, c_cell(c)) for i, c in enumerate(cells)) + "]" if cells else "[]"
+    p = "[" + ";".join("(%d%%N,%s)" % (i, cstr(s)) for i, s in pl) + "]" if pl else "[]"
+    return "(mkV %s %s)" % (d, p)
+
+
+def c_case(quirk, setup, steps, obs, base, shared=None):
+    """shared = (name of the setup constant, name of the base constant) defined in the preamble"""
+    su, ba = shared if shared else (c_setup(setup), c_base(base))
+    st = ("[" + ";".join("(%s,%s)" % (c_op(o), c_obs(ob)) for o, ob in zip(steps, deltas(obs, base))) + "]"
           if steps else "[]")
-    return "(mkCase %s %s %s)" % (cbool(quirk), su, st)
+    return "(mkCase %s %s %s %s)" % (cbool(quirk), su, ba, st)
 
 
 # ---------------------------------------------------------------------------
@@ -671,6 +721,14 @@ def gen_random_history(rng, length):
         apply_op(reg, op)
     pk = Picker(rng, reg)
     steps = []
+    try:
+        with deadline(20.0):
+            return _grow_history(rng, reg, pk, setup, steps, length)
+    except Stuck:
+        return setup, steps
+
+
+def _grow_history(rng, reg, pk, setup, steps, length):
     # at most one edit outside the reference's domain, near the end (what follows it is
     # compared with the model only)
     exotic_at = length - 3 if rng.random() < 0.5 else -1
@@ -680,7 +738,9 @@ def gen_random_history(rng, length):
             break
         if op[0] in ("clone", "prune") and expanded_size(reg) > 120:
             break
+        steps.append(op)           # (if the call never returns, run_history meets it again and records it)
         apply_op(reg, op)
+        steps.pop()
         if expanded_size(reg) > 300:
             break
         steps.append(op)
@@ -791,6 +851,63 @@ def probe_unset_wrong_attribute():
         return [a.qname() for a in r.attributes]
     except Exception as e:     # noqa
         return ["exception " + repr(e)]
+
+
+def regression_probes():
+    """The three repaired defects, each on its original one-line input:
+    [(key of the `fixed` entry, what, observed)] for those that are back."""
+    from suds.sax.element import Element
+    back = []
+
+    def two_a():
+        r, a1, a2, b = Element("r"), Element("a"), Element("a"), Element("b")
+        a1.setText("1")
+        a2.setText("2")
+        r.append([a1, a2, b])
+        return r, a1, a2, b
+    try:
+        r, a1, a2, b = two_a()
+        a2.detach()
+        ok = [c is x for c, x in zip(r.children, (a1, b))] == [True, True] and len(r.children) == 2
+        r2, c1, c2, d = two_a()
+        n = Element("n")
+        r2.replaceChild(c2, n)
+        ok = ok and len(r2.children) == 3 and r2.children[0] is c1 and r2.children[1] is n and r2.children[2] is d
+        r3, e1, e2, f = two_a()
+        e1.set("k", "v")
+        e2.setText(None)          # only the second a is empty
+        f.setText("x")
+        r3.prune()
+        ok = ok and len(r3.children) == 2 and r3.children[0] is e1 and r3.children[1] is f
+        obs = "%s | %s | %s" % (r.plain(), r2.plain(), r3.plain())
+    except Exception as e:     # noqa
+        ok, obs = False, "exception " + repr(e)
+    if not ok:
+        back.append(("C19:surgery-by-equality",
+                     "detach/replaceChild/prune of the SECOND of two same-named siblings <r><a>1</a><a>2</a><b/></r> "
+                     "does not act on the node given", obs))
+    try:
+        a = Element("a")
+        a.setText("1")
+        c = a.clone()
+        ok, obs = (c.text is not None and str(c.text) == "1"), c.plain()
+    except Exception as e:     # noqa
+        ok, obs = False, "exception " + repr(e)
+    if not ok:
+        back.append(("C19:clone-drops-text", "Element.clone() of <a>1</a> does not keep the text", obs))
+    try:
+        r, a, b1, b2 = Element("r"), Element("a"), Element("b"), Element("q:b")
+        r.addPrefix("q", "u1")
+        r.append(a)
+        a.append([b1, b2])
+        got = r.childrenAtPath("a/q:b")
+        ok, obs = (len(got) == 1 and got[0] is b2), repr(got)
+    except Exception as e:     # noqa
+        ok, obs = False, "exception " + repr(e)
+    if not ok:
+        back.append(("C19:childrenAtPath-ignores-leaf-namespace",
+                     "childrenAtPath('a/q:b') on <r xmlns:q='u1'><a><b/><q:b/></a></r> does not return exactly q:b", obs))
+    return back
 
 
 def probes():
@@ -933,19 +1050,17 @@ def describe(setup, steps, upto=None):
             "steps": [list(o) for o in (steps if upto is None else steps[:upto + 1])]}
 
 
-def first_bad_step(ck, quirk, setup, steps, obs, pred):
+def first_bad_step(ck, pre, quirk, setup, steps, obs, base, pred):
     """shortest prefix of the history on which the predicate fails"""
-    lo = None
     for n in range(1, len(steps) + 1):
-        term = c_case(quirk, setup, steps[:n], obs[:n])
+        term = c_case(quirk, setup, steps[:n], obs[:n], base)
         try:
-            res = ck.run_cases("min", PRE, "ccase", [term], [pred], shard=1)
+            res = ck.run_cases("min", pre, "ccase", [term], [pred], shard=1)
         except RuntimeError:
             return None
         if res[pred]:
-            lo = n - 1
-            break
-    return lo
+            return n - 1
+    return None
 
 
 def run(ck):
@@ -968,7 +1083,9 @@ def run(ck):
         "non-parent, (d) replaces a child by itself, by a sibling under the same parent, by an ancestor or by "
         "repeated nodes, (e) unsets an attribute when an earlier attribute of the element has the same local "
         "name, (f) uses an empty path or a single path step written with slashes in childrenAtPath; the model "
-        "still follows the code there and c19_agrees still compares it with the implementation",
+        "still follows the code there and c19_agrees still compares it with the implementation; after such an "
+        "edit c19_spec_ok goes on from the implementation's own state when that state is a forest (no node in "
+        "two child lists), so later edits of the history are again checked against the reference",
         "intermediate path steps take the FIRST matching child (documented behaviour of childAtPath), a name "
         "without prefix matches in any namespace (the namespace is an optional filter)",
         "Attribute objects are modelled as positions in the element's attribute list",
@@ -994,6 +1111,11 @@ def run(ck):
         else:
             # proposed finding, not registered in KNOWN_FINDINGS.json yet: recorded, no verdict
             ck.extra["proposed_finding_not_registered"] = {"key": KEY_ATTR_EQ, "what": what}
+    for key, what, observed in regression_probes():
+        ck.failing_input(key, what + " (repaired earlier, now back): " + observed,
+                         {"kind": "regression-probe", "key": key, "observed": observed})
+    ck.seen(("probe", "regressions"), nontrivial=True)
+    ck.count("probe:repaired-defects")
     ck.extra["probes"] = probes()
     bad_internal = check_internal_users(ck)
     if bad_internal:
@@ -1003,9 +1125,14 @@ def run(ck):
                          {"kind": "doctor", "n": bad_internal[0]})
 
     groups = generate(ck)
+    # the small tree's setup and the picture after it are shared by thousands of cases:
+    # defined once in the preamble (from what the implementation shows now)
+    _, _, small_base = run_history(SMALL_SETUP, [])
+    pre = (PRE + "\nImport ListNotations.\nDefinition small_setup : list op := %s.\n"
+           "Definition small_base : view := %s." % (c_setup(SMALL_SETUP), c_base(small_base)))
     terms, keep = [], []
     for grp, setup, steps in groups:
-        obs, done = run_history(setup, steps)
+        obs, done, base = run_history(setup, steps)
         if not done:
             continue
         attr_links = all(ok for ob in obs for c in ob[1] for (_, _, _, ok) in c[6])
@@ -1013,8 +1140,9 @@ def run(ck):
             ck.failing_input("C19:attribute-parent-link",
                              "an attribute's parent link does not point to the element holding it",
                              dict(describe(setup, done), kind="history"))
-        terms.append(c_case(quirk, setup, done, obs))
-        keep.append((grp, setup, done, obs))
+        shared = ("small_setup", "small_base") if setup is SMALL_SETUP and base == small_base else None
+        terms.append(c_case(quirk, setup, done, obs, base, shared))
+        keep.append((grp, setup, done, obs, base))
         edits = [o for o in done if o[0] not in ("getChild", "getChildren", "childAtPath", "childrenAtPath",
                                                  "getAttr", "namespace")]
         ck.seen((tuple(map(repr, setup)), tuple(map(repr, done))), nontrivial=bool(edits))
@@ -1024,12 +1152,16 @@ def run(ck):
             ck.count("op:" + o[0])
         ck.count("results-that-are-exceptions", sum(1 for ob in obs if ob[0] == ("RErr",)))
     for i in (0, len(keep) // 2, len(keep) - 1):
-        grp, setup, done, obs = keep[i]
+        grp, setup, done, obs, base = keep[i]
         ck.sample({"group": grp, "setup_ops": len(setup), "steps": [list(o) for o in done[:8]],
                    "plain_after_last_step": obs[-1][2][:2]})
     preds = ["c19_agrees", "c19_spec_ok",
              "c19_inside"]
-    res = ck.run_cases("cases", PRE, "ccase", terms, preds, shard=60)
+    nbig = sum(1 for k in keep if k[0].startswith("random"))          # generate() puts them first
+    res = ck.run_cases("random", pre, "ccase", terms[:nbig], preds, shard=40)
+    res2 = ck.run_cases("small", pre, "ccase", terms[nbig:], preds, shard=300)
+    for pr in preds:
+        res[pr] = res[pr] + [nbig + i for i in res2[pr]]
     bad_model, bad_spec = set(res[preds[0]]), set(res[preds[1]])
     ck.extra["histories_fully_inside_the_reference_domain"] = len(terms) - len(res[preds[2]])
     ck.extra["histories_leaving_the_reference_domain"] = len(res[preds[2]])
@@ -1038,8 +1170,8 @@ def run(ck):
     def size(i):
         return (len(keep[i][2]), len(keep[i][1]))
     for i in sorted(bad_spec, key=size)[:1]:
-        grp, setup, done, obs = keep[i]
-        n = first_bad_step(ck, quirk, setup, done, obs, "c19_spec_ok")
+        grp, setup, done, obs, base = keep[i]
+        n = first_bad_step(ck, pre, quirk, setup, done, obs, base, "c19_spec_ok")
         upto = n if n is not None else len(done) - 1
         op = done[upto]
         ck.failing_input(
@@ -1065,8 +1197,8 @@ def run(ck):
     only_model = sorted(bad_model - bad_spec, key=size)
     if only_model:
         i = only_model[0]
-        grp, setup, done, obs = keep[i]
-        n = first_bad_step(ck, quirk, setup, done, obs, "c19_agrees")
+        grp, setup, done, obs, base = keep[i]
+        n = first_bad_step(ck, pre, quirk, setup, done, obs, base, "c19_agrees")
         upto = n if n is not None else len(done) - 1
         ck.unproved("model/implementation correspondence of C19 no longer holds (no departure from the reference "
                     "was found, but the implementation is no longer the algorithm the theorems are about): "
@@ -1083,10 +1215,16 @@ def replay(ck, payload):
     if kind == "unset-probe":
         print("attributes left now:", probe_unset_wrong_attribute(), " expected:", payload.get("expected"))
         return 0
+    if kind == "regression-probe":
+        print("repaired defects that are back now:", [k for k, _, _ in regression_probes()])
+        return 0
+    if kind == "doctor":
+        print("xsd.doctor.Import.apply check failing for n =", check_internal_users(ck))
+        return 0
     if kind == "history":
         setup = [tuple(o) for o in payload["setup"]]
         steps = [tuple(o) for o in payload["steps"]]
-        obs, done = run_history(setup, steps)
+        obs, done, _ = run_history(setup, steps)
         for o, ob in zip(done, obs):
             print(o, "->", ob[0])
             for i, s in ob[2]:
